@@ -627,6 +627,21 @@ func (s *State) applyContract(fn *ssa.Function, fc *FuncContract, args []Value, 
 	// frame: havoc declared regions
 	var regs []*Region
 	for _, m := range fc.Modifies {
+		if m.When != nil {
+			cond := s.evalClause(m.When, args, pre)
+			switch {
+			case s.proves(cond):
+			case s.proves(Not(cond)):
+				continue
+			default:
+				if s.decide(2, "modifies-when") == 0 {
+					s.assume(cond)
+				} else {
+					s.assume(Not(cond))
+					continue
+				}
+			}
+		}
 		regs = append(regs, s.evalModifies(m, args)...)
 	}
 	logGrows := false
